@@ -273,3 +273,37 @@ def engines_used(trace):
         if n == "engine":
             out.setdefault(info["fn"], set()).add(info["engine"])
     return out
+
+
+# ---------------------------------------------------------------------------------------
+# K04: conservation contract on rewrite_lines (v1 and v2): same number of lines, and a line on which none
+# of the file's patterns matches is returned unchanged.
+
+K04_WITNESSES = []
+K04_EVALS = [0]
+
+
+def _k04_post(patterns, old_lines, result):
+    K04_EVALS[0] += 1
+    if len(result) != len(old_lines):
+        if len(K04_WITNESSES) < 10:
+            K04_WITNESSES.append(("line-count", len(old_lines), len(result)))
+        return True
+    for old, new in zip(old_lines, result):
+        if old != new and not any(p.regexp.search(old) for p in patterns):
+            if len(K04_WITNESSES) < 10:
+                K04_WITNESSES.append(("unmatched-line-changed", old[:80], new[:80]))
+            break
+    return True
+
+
+def install_k04():
+    import icontract
+    harness.bv()
+    import bumpver.v1rewrite as v1rewrite
+    import bumpver.v2rewrite as v2rewrite
+    for mod in (v2rewrite, v1rewrite):
+        key = (mod.__name__, "rewrite_lines")
+        if key not in _installed:
+            mod.rewrite_lines = icontract.ensure(_k04_post, error=K16Broken)(mod.rewrite_lines)
+            _installed.add(key)
